@@ -37,8 +37,15 @@ Inductive failkind :=
 
 (* How the caller's context ends at the ECancel event: its cancel function is called
    (Err() = context.Canceled) or it runs out of time (Err() = context.DeadlineExceeded).  The
-   caller has given up either way; the error the call then returns is the context's. *)
-Inductive ctxend := EndCancel | EndDeadline.
+   caller has given up either way; the error the call then returns is the context's.
+   EndForeign: the caller's context is not one of package context's own types (its own Done
+   channel, no AfterFunc - a framework's request context, a merged context): package context then
+   forwards the cancellation to every derived context through a goroutine of its own that stays
+   parked until the derived context is cancelled.  Under such a caller the harness reads
+   'context done now' from the goroutine profile (the forwarder started by the member's sender
+   is gone) and cross-checks it with the context's Err(); a forwarder that is still parked is
+   a context nobody cancelled. *)
+Inductive ctxend := EndCancel | EndDeadline | EndForeign.
 
 (* One call of one entry point: the two members' kinds, shapes and failure flavours, how the
    caller's context ends, the schedule the harness played (event, wait-for-quiet-and-observe),
@@ -49,6 +56,12 @@ Record case := {
   c_sh0 : shape; c_sh1 : shape;
   c_f0 : failkind; c_f1 : failkind;
   c_end : ctxend;
+  (* the readers the members hand out are streams that have stalled: Read blocks until the
+     member's context is cancelled (or the reader is closed) - an HTTP body on a connection
+     on which nothing arrives.  Close and Descriptor answer at once; the caller does not
+     read.  The protocol never reads a member's reader, so the prediction does not depend
+     on it. *)
+  c_stall : bool;
   c_sched : list (ev * bool);
   c_snaps : list snapshot
 }.
